@@ -46,7 +46,8 @@ def strategy():
             'inner_mode': st.sampled_from(WMODES), 'inherit_sub': st.booleans(),
             'prefix': st.sampled_from(['/sub', '/sub/', '/', '/p/q'])})),
         'decoy': st.booleans(),
-        'front': st.sampled_from([None, None, 'method', 'nb']),
+        'front': st.sampled_from([None, None, 'method', 'nb', 'same-nb', 'same-nb']),
+        'front_mode': st.sampled_from(WMODES),
         'decoy_methods': st.sampled_from([None, None, ['POST'], ['GET'], ['PUT', 'DELETE']]),
         'prime': st.sampled_from([None, None, 'PATCH', 'DELETE', 'PUT', 'OPTIONS']),
         'segs': st.lists(seg, min_size=3, max_size=3),
@@ -108,26 +109,33 @@ def build(case):
         front_pattern = full.rstrip('/') if full.endswith('/') else full + '/'
         if front == 'method':
             front_route = Route(front_pattern, make_ep(2, names), methods=['PATCH'])
+        elif front == 'same-nb':
+            # the *same* pattern, with a slash mode of its own (not inherited), passing every request on
+            front_pattern = full
+            front_route = Route(front_pattern, make_ep(2, names, nb=True), slash_mode=case.get('front_mode') or 'rewrite')
         else:
             front_route = Route(front_pattern, make_ep(2, names, nb=True))
     if emb:
         inner = Application(slash_mode=emb['inner_mode'])
         inner.add(route, inherit_slashes=case['inherit'])
         m1 = emb['inner_mode'] if case['inherit'] else case['route_mode']
-        app = Application(([front_route] if front_route else []) + [SubApplication(emb['prefix'], inner, inherit_slashes=emb['inherit_sub'])],
-                          slash_mode=case['app_mode'])
+        app = Application(slash_mode=case['app_mode'])
+        if front_route:
+            app.add(front_route, inherit_slashes=(front != 'same-nb'))
+        app.add(SubApplication(emb['prefix'], inner, inherit_slashes=emb['inherit_sub']))
         mode = case['app_mode'] if emb['inherit_sub'] else m1
         prefix = emb['prefix'].rstrip('/')
     else:
         app = Application(slash_mode=case['app_mode'])
         if front_route:
-            app.add(front_route)
+            app.add(front_route, inherit_slashes=(front != 'same-nb'))
         app.add(route, inherit_slashes=case['inherit'])
         mode = case['app_mode'] if case['inherit'] else case['route_mode']
         prefix = ''
     table = [M.Entry(0, prefix + pattern, case['methods'], 'answer', mode)]
     if front_route:
-        table.insert(0, M.Entry(2, front_pattern, ['PATCH'] if front == 'method' else None, 'answer' if front == 'method' else 'nbret404', case['app_mode']))
+        table.insert(0, M.Entry(2, front_pattern, ['PATCH'] if front == 'method' else None, 'answer' if front == 'method' else 'nbret404',
+                                (case.get('front_mode') or 'rewrite') if front == 'same-nb' else case['app_mode']))
     if case['decoy']:
         dm = case.get('decoy_methods')
         app.add(Route('/<dq*>', make_ep(1, ['dq']), methods=dm))
@@ -195,7 +203,7 @@ def body(case, ctx):
         elif exp['kind'] == 'answer':
             # (a front route that passes the request on has recorded itself before the answering one)
             if not _REC or len(_REC) > 2 or _REC[-1][0] != exp['rid'] or not any(U.same_assignment(_REC[-1][1], a) for a in exp['params']) \
-                    or (len(_REC) == 2 and (_REC[0][0] != 2 or case.get('front') != 'nb')):
+                    or (len(_REC) == 2 and (_REC[0][0] != 2 or case.get('front') not in ('nb', 'same-nb'))):
                 if not _d3(table, exp, path):
                     ctx.mismatch('direct-params', '%s %r: endpoint saw %r, model %r' % (method, path, _REC, exp['params'][:2]), rc)
         return
